@@ -622,6 +622,18 @@ impl<'c> VisitMut for Rw<'c> {
                 *e = parse_quote!(#label loop { match #cond { #pat => #body, _ => break } });
             }
         }
+        // A1c: `fut.map(|p| body).await` (FutureExt::map) is `{ let p = fut.await; body }`
+        if let Expr::Await(a) = e {
+            if let Expr::MethodCall(m) = &*a.base { if m.method == "map" && m.args.len() == 1 { if let Expr::Closure(cl) = &m.args[0] {
+                let recv_is_eager = call_last_ident(&m.receiver).map(|n| self.cx.unit.eager.contains(&n)).unwrap_or(false);
+                if recv_is_eager && !has_control_escape(&cl.body) { if let Some(p) = closure_single_pat(cl) {
+                    let recv = &m.receiver; let body = &cl.body; let at = &a.await_token; let dot = &a.dot_token;
+                    let p: syn::Pat = if matches!(p, syn::Pat::Wild(_)) { parse_quote!(_hx_ignored) } else { p };
+                    self.cx.fire("A1c");
+                    *e = parse_quote!({ let #p = #recv #dot #at; #body });
+                } }
+            } } }
+        }
         // A1: `callee(..).await` with an eager callee -> mark the call
         if let Expr::Await(a) = e { self.apply_ufcs(&mut a.base); }
         if let Expr::Await(a) = e {
@@ -672,6 +684,16 @@ impl<'c> VisitMut for Rw<'c> {
                         let recv = &en.receiver; let k = &en.args[0]; let v = &m.args[0];
                         self.cx.fire("T3"); *e = parse_quote!(#recv.push_at(#k, #v));
                     } }
+                } }
+            }
+        }
+        // T3: `m.entry(k).or_insert(v)` / `.or_insert_with(|| v)` -> `m.entry_or_insert(k, v)` (insert only if the key is vacant)
+        if let Expr::MethodCall(m) = e {
+            if (m.method == "or_insert" || m.method == "or_insert_with") && m.args.len() == 1 {
+                if let Expr::MethodCall(en) = &*m.receiver { if en.method == "entry" && en.args.len() == 1 {
+                    let recv = &en.receiver; let k = &en.args[0];
+                    let v: Option<Expr> = if m.method == "or_insert" { Some(m.args[0].clone()) } else { match &m.args[0] { Expr::Closure(cl) if cl.inputs.is_empty() && !has_control_escape(&cl.body) => Some((*cl.body).clone()), _ => None } };
+                    if let Some(v) = v { self.cx.fire("T3"); *e = parse_quote!(#recv.entry_or_insert(#k, #v)); }
                 } }
             }
         }
